@@ -291,3 +291,68 @@ func vC16Sample(n int) {
 
 func vhC16_sample_n2() { vC16Sample(2) }
 func vhC16_sample_n3() { vC16Sample(3) }
+
+// C16 / C12 (two overlapping subscriptions of one time-driven pipeline, started at different
+// instants): each subscription has its own clock phase — the k-th periodic emission of a
+// subscription never comes before k periods have elapsed since THAT subscription started.
+func vC16Overlap() {
+	const d = int64(1000)
+	g := vInt64("g") // the second subscriber arrives g after the first
+	vAssume(g > 0)
+	vAssume(g < d)
+	p := &vProbe{name: "src"}
+	var pipe vPipeline
+	name := ""
+	switch vChoice("op", 3) {
+	case 0:
+		name, pipe = "BufferWithTime", vPipe(BufferWithTime[int64](time.Duration(d))(p), vFlatSlice)
+	case 1:
+		name, pipe = "BufferWithTimeOrCount", vPipe(BufferWithTimeOrCount[int64](5, time.Duration(d))(p), vFlatSlice)
+	default:
+		name, pipe = "SampleTime", vPipe(SampleTime[int64](time.Duration(d))(p), vFlatInt)
+	}
+	a, b := vNewStamped(), vNewStamped()
+	tA := vNow()
+	subA := pipe(context.Background(), a.rec)
+	vQuiesce()
+	vAdvance(g)
+	vQuiesce()
+	tB := vNow()
+	subB := pipe(context.Background(), b.rec)
+	vQuiesce()
+	feed := func(v int64) {
+		for i := 0; i < len(p.dests); i++ {
+			if p.torn[i] == 0 && !p.ended[i] {
+				p.emitAt(i, vStep{vkNext, v})
+			}
+		}
+		vQuiesce()
+	}
+	feed(1)
+	vAdvance(d - g) // the first subscriber's period is over, the second's is not
+	vQuiesce()
+	feed(2)
+	vAdvance(g)
+	vQuiesce()
+	feed(3)
+	vAdvance(d)
+	vQuiesce()
+	subA.Unsubscribe()
+	subB.Unsubscribe()
+	vQuiesce()
+	check := func(who string, s *vStamped, t0 int64) {
+		k := int64(0)
+		for i, e := range s.rec.evs {
+			if e.kind != vkNext {
+				continue
+			}
+			k++
+			vAssert(s.stamps[i] >= t0+k*d, name+": the k-th periodic emission of the "+who+" of two overlapping subscriptions came before k periods had elapsed since it subscribed")
+		}
+	}
+	check("first", a, tA)
+	check("second", b, tB)
+	vReach("end")
+}
+
+func vhC16_overlap_2() { vC16Overlap() }
